@@ -29,6 +29,7 @@ struct FnEmit
     DenseMap<Value*, std::string> names;
     DenseMap<BasicBlock*, int> bbId;
     std::vector<std::pair<std::string, std::string>> decls;     // frame (res) or local (seq): type, declarator
+    std::vector<std::pair<std::string, std::string>> sdecls;    // res mode: static per-slot storage of allocas
     std::vector<std::pair<std::string, std::string>> ldecls;    // res mode: plain C locals (not live across yields)
     std::string body;
     raw_string_ostream os;
@@ -79,7 +80,7 @@ struct FnEmit
             if (G && G->getFunctionType() != CB->getFunctionType()) G = nullptr;
             if (G) return C.resumable.count(G) > 0;
             for (Function* H : C.addrTaken)
-                if (H->getFunctionType() == CB->getFunctionType() && C.resumable.count(H)) return true;
+                if (compatibleFT(H->getFunctionType(), CB->getFunctionType()) && C.resumable.count(H)) return true;
         }
         return false;
     }
@@ -92,7 +93,23 @@ struct FnEmit
                 auto* N = dyn_cast<ConstantInt>(A->getArraySize());
                 if (!N) die("dynamic alloca in " + F.getName().str());
                 std::string m = "m_" + names[&I];
-                if (N->isOne())
+                if (res)
+                {
+                    // one static object per alloca and slot: byte-level writes (memcpy into a std::string buffer ...)
+                    // must not touch the frame's own fields, or CBMC loses the points-to sets of everything in it
+                    std::string g = "FRA_" + fname + "_" + names[&I];
+                    if (N->isOne())
+                    {
+                        sdecls.push_back({C.ty(A->getAllocatedType()), g + "[VERIF_NSLOT]"});
+                        inl[&I] = "(&" + g + "[verif_cur])";
+                    }
+                    else
+                    {
+                        sdecls.push_back({C.ty(A->getAllocatedType()), g + "[VERIF_NSLOT][" + std::to_string(N->getZExtValue()) + "]"});
+                        inl[&I] = "(&" + g + "[verif_cur][0])";
+                    }
+                }
+                else if (N->isOne())
                 {
                     decl(A->getAllocatedType(), m);
                     inl[&I] = "(&" + ref(m) + ")";
@@ -194,14 +211,43 @@ struct FnEmit
     std::string retStmt(const std::string& v)
     {
         if (!res) return v.empty() ? "return;" : "return " + v + ";";
-        return (v.empty() ? std::string() : "fr->ret = " + v + "; ") + "fr->pc = 0; return 0;";
+        return (v.empty() ? std::string() : "fr->ret = " + v + "; ") + (C.chain ? "fr->pc = 0; goto END;" : "fr->pc = 0; return 0;");
     }
     std::string excPropagate()
     {
         if (!res) return retStmt(C.zeroOf(F.getReturnType()));
-        return "{ fr->pc = 0; return 0; }";
+        return C.chain ? "{ fr->pc = 0; goto END; }" : "{ fr->pc = 0; return 0; }";
     }
-    std::string yieldRet(int k) { return "{ fr->pc = " + std::to_string(k) + "; return 1; }"; }
+    // ---- res mode layout: a chain of segments (block starts and yield points).  In seek mode (resuming:
+    // verif_mode 1) and in yielded mode (verif_mode 2) control falls through the chain without executing
+    // anything, so that symex joins paths again right away instead of at the function end (Lazy-CSeq style).
+    int nSeg = 0;
+    std::vector<std::string> segLabels;
+    std::string nextTok() { return "@N" + std::to_string(nSeg - 1) + "@"; }
+    void beginBlockSeg(const std::string& label)
+    {
+        segLabels.push_back(label);
+        ++nSeg;
+        os << " " << label << ": ;\n";
+        if (res && C.chain) os << "  if (verif_mode) goto " << nextTok() << ";\n";
+    }
+    int beginYieldSeg()
+    {
+        int k = nextY++;
+        std::string label = "Y" + std::to_string(k);
+        segLabels.push_back(label);
+        ++nSeg;
+        if (C.chain)
+            os << " " << label << ": if (verif_mode == 1 && fr->pc == " << k << ") verif_mode = 0;\n  if (verif_mode) goto " << nextTok() << ";\n";
+        else
+            os << " " << label << ": ;\n";
+        return k;
+    }
+    std::string yieldRet(int k)
+    {
+        if (!C.chain) return "{ fr->pc = " + std::to_string(k) + "; return 1; }";
+        return "{ fr->pc = " + std::to_string(k) + "; verif_mode = 2; goto " + nextTok() + "; }";
+    }
 
     std::string edgeCopies(BasicBlock* from, BasicBlock* to)
     {
@@ -228,12 +274,48 @@ struct FnEmit
         return v;
     }
 
+    // value converted to the parameter type of the actual target (pointer types may differ on
+    // virtual / type-erased calls)
+    std::string argFor(Function* G, unsigned i, Value* A)
+    {
+        Type* want = i < G->getFunctionType()->getNumParams() ? G->getFunctionType()->getParamType(i) : A->getType();
+        if (want != A->getType() && want->isPointerTy()) return "((" + C.ty(want) + ")" + val(A) + ")";
+        return val(A);
+    }
+    std::string retFrom(Function* G, CallBase& CB, const std::string& e)
+    {
+        if (G->getReturnType() != CB.getType() && CB.getType()->isPointerTy()) return "((" + C.ty(CB.getType()) + ")" + e + ")";
+        return e;
+    }
+
+    // i64 values that really are pointers (clang lowers small struct copies and atomic<T*> to integer
+    // loads/stores + inttoptr/ptrtoint): keep a pointer-typed twin so CBMC retains points-to information
+    bool isPtrLoad(Value* V)
+    {
+        auto* L = dyn_cast<LoadInst>(V);
+        if (!L || !L->getType()->isIntegerTy(64)) return false;
+        for (User* U : L->users())
+            if (isa<IntToPtrInst>(U)) return true;
+        return false;
+    }
+    std::string pshadow(Value* V)
+    {
+        if (!V->getType()->isIntegerTy(64)) return "";
+        if (auto* PI = dyn_cast<PtrToIntOperator>(V)) return "((u8*)" + val(PI->getPointerOperand()) + ")";
+        if (isPtrLoad(V))
+        {
+            std::string n = names[V] + "_p";
+            return (res && frameVals.count(V)) ? "fr->" + n : n;
+        }
+        return "";
+    }
+
     void visiblePrologue()
     {
         ++nVisible;
         if (!res) return;
-        int k = nextY++;
-        os << "  Y" << k << ": if (verif_preempt()) " << yieldRet(k) << "\n";
+        int k = beginYieldSeg();
+        os << "  if (verif_preempt()) " << yieldRet(k) << "\n";
     }
 
     bool emitIntrinsicOrSpecial(CallBase& CB, Function* Callee)
@@ -411,8 +493,8 @@ struct FnEmit
                 os << "  verif_seq_block((u32*)" << a(0) << ");\n";
                 return true;
             }
-            int k = nextY++;
-            os << "  Y" << k << ": if (verif_block_check((u32*)" << a(0) << ")) " << yieldRet(k) << "\n";
+            int k = beginYieldSeg();
+            os << "  if (verif_block_check((u32*)" << a(0) << ")) " << yieldRet(k) << "\n";
             return true;
         }
         if (n == "verif_spin" || n == "verif_spin_timed")
@@ -423,9 +505,9 @@ struct FnEmit
                 os << "  verif_seq_spin();\n";
                 return true;
             }
-            int k = nextY++;
             os << "  verif_spin_begin(" << (n == "verif_spin_timed" ? 1 : 0) << ");\n";
-            os << "  Y" << k << ": if (verif_preempt_spin()) " << yieldRet(k) << "\n";
+            int k = beginYieldSeg();
+            os << "  if (verif_preempt_spin()) " << yieldRet(k) << "\n";
             return true;
         }
         if (n == "verif_yield")
@@ -449,6 +531,7 @@ struct FnEmit
         }
         Function* Callee = dyn_cast<Function>(CV->stripPointerCasts());
         if (Callee && Callee->getFunctionType() != CB.getFunctionType()) Callee = nullptr;    // call through cast
+        if (Callee && C.skipCalls.count(Callee)) return;
         if (Callee && emitIntrinsicOrSpecial(CB, Callee)) return;
         bool mayThrow = !CB.doesNotThrow();
         std::string lhs = CB.getType()->isVoidTy() ? "" : val(&CB) + " = ";
@@ -468,8 +551,8 @@ struct FnEmit
             os << "  { struct FR_" << cn << "* cf = &FRS_" << cn << "[verif_cur];";
             for (unsigned i = 0; i < CB.arg_size(); ++i) os << " cf->a" << i << " = " << val(CB.getArgOperand(i)) << ";";
             os << " cf->pc = 0; }\n";
-            int k = nextY++;
-            os << "  Y" << k << ": if (" << cn << "__step()) " << yieldRet(k) << "\n";
+            int k = beginYieldSeg();
+            os << "  if (" << cn << "__step()) " << yieldRet(k) << "\n";
             if (!CB.getType()->isVoidTy())
                 os << "  " << (mayThrow ? "if (!VERIF_EXC_PENDING) " : "") << lhs << "FRS_" << cn << "[verif_cur].ret;\n";
         }
@@ -487,7 +570,7 @@ struct FnEmit
             bool anyRes = false;
             if (res)
                 for (Function* G : C.addrTaken)
-                    if (G->getFunctionType() == FT && !G->isDeclaration())
+                    if (compatibleFT(G->getFunctionType(), FT) && !G->isDeclaration())
                     {
                         cands.push_back(G);
                         anyRes |= C.resumable.count(G) > 0;
@@ -501,8 +584,7 @@ struct FnEmit
             }
             else
             {
-                int k = nextY++;
-                std::string tg = "tgt" + std::to_string(k);
+                std::string tg = "tgt" + std::to_string(tmpCnt++);
                 decls.push_back({"int", tg});
                 os << "  " << ref(tg) << " = 0;\n";
                 for (size_t i = 0; i < cands.size(); ++i)
@@ -513,10 +595,11 @@ struct FnEmit
                     {
                         std::string cn = C.gname(cands[i]);
                         os << "  if (" << ref(tg) << " == " << i + 1 << ") { struct FR_" << cn << "* cf = &FRS_" << cn << "[verif_cur];";
-                        for (unsigned j = 0; j < CB.arg_size(); ++j) os << " cf->a" << j << " = " << val(CB.getArgOperand(j)) << ";";
+                        for (unsigned j = 0; j < CB.arg_size(); ++j) os << " cf->a" << j << " = " << argFor(cands[i], j, CB.getArgOperand(j)) << ";";
                         os << " cf->pc = 0; }\n";
                     }
-                os << "  Y" << k << ": switch (" << ref(tg) << ") {\n";
+                int k = beginYieldSeg();
+                os << "  switch (" << ref(tg) << ") {\n";
                 for (size_t i = 0; i < cands.size(); ++i)
                 {
                     std::string cn = C.gname(cands[i]);
@@ -524,13 +607,14 @@ struct FnEmit
                     if (C.resumable.count(cands[i]))
                     {
                         os << "if (" << cn << "__step()) " << yieldRet(k);
-                        if (!CB.getType()->isVoidTy()) os << " " << lhs << "FRS_" << cn << "[verif_cur].ret;";
+                        if (!CB.getType()->isVoidTy()) os << " " << lhs << retFrom(cands[i], CB, "FRS_" + cn + "[verif_cur].ret") << ";";
                     }
                     else
                     {
-                        os << lhs << cn << "(";
-                        for (unsigned j = 0; j < CB.arg_size(); ++j) os << (j ? ", " : "") << val(CB.getArgOperand(j));
-                        os << ");";
+                        std::string call = cn + "(";
+                        for (unsigned j = 0; j < CB.arg_size(); ++j) call += (j ? ", " : "") + argFor(cands[i], j, CB.getArgOperand(j));
+                        call += ")";
+                        os << lhs << (CB.getType()->isVoidTy() ? call : retFrom(cands[i], CB, call)) << ";";
                     }
                     os << " break;\n";
                 }
@@ -555,6 +639,11 @@ struct FnEmit
                 containerBits(L.getType()->getIntegerBitWidth()) != L.getType()->getIntegerBitWidth())
                 die("load of odd-width integer");
             if (L.isAtomic()) visiblePrologue();
+            if (isPtrLoad(&I))
+            {
+                os << "  " << pshadow(&I) << " = *(u8**)" << val(L.getPointerOperand()) << "; " << val(&I) << " = (u64)(uintptr_t)" << pshadow(&I) << ";\n";
+                return;
+            }
             os << "  " << val(&I) << " = *" << val(L.getPointerOperand()) << ";\n";
             return;
         }
@@ -569,7 +658,17 @@ struct FnEmit
                 visiblePrologue();
                 if (res) os << "  if (*" << val(S.getPointerOperand()) << " != " << val(S.getValueOperand()) << ") verif_changed = 1;\n";
             }
-            os << "  *" << val(S.getPointerOperand()) << " = " << val(S.getValueOperand()) << ";\n";
+            if (std::string ps = pshadow(S.getValueOperand()); !ps.empty())
+                os << "  *(u8**)" << val(S.getPointerOperand()) << " = " << ps << ";\n";
+            else
+                os << "  *" << val(S.getPointerOperand()) << " = " << val(S.getValueOperand()) << ";\n";
+            return;
+        }
+        case Instruction::IntToPtr:
+        {
+            std::string ps = pshadow(I.getOperand(0));
+            if (ps.empty()) break;
+            os << "  " << val(&I) << " = (" << C.ty(I.getType()) << ")" << ps << ";\n";
             return;
         }
         case Instruction::AtomicRMW:
@@ -702,8 +801,9 @@ struct FnEmit
         case Instruction::IndirectBr:
         case Instruction::ShuffleVector:
         case Instruction::CallBr: die(std::string("unsupported instruction ") + I.getOpcodeName() + " in " + F.getName().str());
-        default: os << "  " << val(&I) << " = " << C.pureExpr(I.getOpcode(), &I, valf()) << ";\n"; return;
+        default: break;
         }
+        os << "  " << val(&I) << " = " << C.pureExpr(I.getOpcode(), &I, valf()) << ";\n";
     }
 
     std::string aggPath(Type* T, ArrayRef<unsigned> idx)
@@ -748,20 +848,42 @@ struct FnEmit
             else
                 ldecl(I.getType(), names[&I]);
             if (isa<PHINode>(I)) ldecl(I.getType(), "t_" + names[&I]);
+            if (isPtrLoad(&I))
+            {
+                if (res && frameVals.count(&I)) decls.push_back({"u8*", names[&I] + "_p"});
+                else
+                    (res ? ldecls : decls).push_back({"u8*", names[&I] + "_p"});
+            }
         }
         // byval args: private copy
         for (Argument& A : F.args())
             if (A.hasByValAttr())
             {
                 std::string c = "bv" + std::to_string(A.getArgNo());
-                decl(A.getParamByValType(), c);
-                os << "  " << ref(c) << " = *" << val(&A) << "; " << val(&A) << " = &" << ref(c) << ";\n";
+                if (res)
+                {
+                    std::string g = "FRA_" + fname + "_" + c;
+                    sdecls.push_back({C.ty(A.getParamByValType()), g + "[VERIF_NSLOT]"});
+                    os << "  " << g << "[verif_cur] = *" << val(&A) << "; " << val(&A) << " = &" << g << "[verif_cur];\n";
+                }
+                else
+                {
+                    decl(A.getParamByValType(), c);
+                    os << "  " << ref(c) << " = *" << val(&A) << "; " << val(&A) << " = &" << ref(c) << ";\n";
+                }
             }
         os << "  goto B0;\n";
-        for (BasicBlock& BB : F)
         {
-            os << " B" << bbId[&BB] << ": ;\n";
-            for (Instruction& I : BB) emitInst(I);
+            // reverse post order: only genuine loop back edges become backward gotos (CBMC counts every
+            // backward goto as a loop to unwind)
+            ReversePostOrderTraversal<Function*> RPOT(&F);
+            std::set<BasicBlock*> done;
+            for (BasicBlock* BB : RPOT)
+            {
+                done.insert(BB);
+                beginBlockSeg("B" + std::to_string(bbId[BB]));
+                for (Instruction& I : *BB) emitInst(I);
+            }
         }
         os.flush();
         // signature
@@ -784,17 +906,49 @@ struct FnEmit
         }
         else
         {
+            for (auto& d : sdecls) protoOut << "static " << d.first << " " << d.second << ";\n";
             protoOut << "struct FR_" << fname << " { int pc;";
             if (!RT->isVoidTy()) protoOut << " " << C.ty(RT) << " ret;";
             for (Argument& A : F.args()) protoOut << " " << C.ty(A.getType()) << " a" << A.getArgNo() << ";";
             for (auto& d : decls) protoOut << " " << d.first << " " << d.second << ";";
             protoOut << " };\nstatic struct FR_" << fname << " FRS_" << fname << "[VERIF_NSLOT];\nstatic int " << fname << "__step(void);\n";
+            if (C.addrTaken.count(&F))
+            {
+                // addressable identity of a resumable function (vtables, callbacks); never called directly
+                std::string sg = C.ty(RT) + " " + fname + "(";
+                for (Argument& A : F.args()) sg += (A.getArgNo() ? ", " : "") + C.ty(A.getType()) + " a" + std::to_string(A.getArgNo());
+                if (F.arg_empty()) sg += "void";
+                sg += ")";
+                protoOut << sg << ";\n";
+                bodyOut << sg << "\n{\n  VERIF_ASSERT(0, \"resumable function called through a plain function pointer\"); VERIF_ASSUME(0);\n";
+                if (!RT->isVoidTy()) bodyOut << "  return " << C.zeroOf(RT) << ";\n";
+                bodyOut << "}\n";
+            }
             bodyOut << "/* [resumable] " << dn << " */\nstatic int " << fname << "__step(void)\n{\n  struct FR_" << fname << "* fr = &FRS_" << fname
                     << "[verif_cur];\n\n";
             for (auto& d : ldecls) bodyOut << "  " << d.first << " " << d.second << ";\n";
-            bodyOut << "  switch (fr->pc) { case 0: break;";
-            for (int k = 1; k < nextY; ++k) bodyOut << " case " << k << ": goto Y" << k << ";";
-            bodyOut << " default: VERIF_ASSUME(0); }\n" << body << "}\n\n";
+            if (!C.chain)
+            {
+                bodyOut << "  switch (fr->pc) { case 0: break;";
+                for (int k = 1; k < nextY; ++k) bodyOut << " case " << k << ": goto Y" << k << ";";
+                bodyOut << " default: VERIF_ASSUME(0); }\n" << body << "}\n\n";
+                return;
+            }
+            bodyOut << "  if (fr->pc != 0) verif_mode = 1;\n";
+            // patch "next segment" tokens
+            std::string b = body;
+            for (int i = nSeg - 1; i >= 0; --i)
+            {
+                std::string tok = "@N" + std::to_string(i) + "@";
+                std::string rep = i + 1 < nSeg ? segLabels[i + 1] : std::string("END");
+                size_t pos = 0;
+                while ((pos = b.find(tok, pos)) != std::string::npos)
+                {
+                    b.replace(pos, tok.size(), rep);
+                    pos += rep.size();
+                }
+            }
+            bodyOut << b << " END: ;\n  if (verif_mode == 1) VERIF_ASSUME(0);\n  return verif_mode == 2;\n}\n\n";
         }
     }
 };
